@@ -27,6 +27,9 @@ CHECKS = {
  "C15": ("fault_enumeration", "6.C15", "Per scenario the context is cancelled inside every seam event of the clean run, before the call, and by simulated-clock deadlines; no action event may belong to a firing started after the cancellation event.", SIM_E_NOTE, "deterministic simulation with fault injection: per-scenario enumeration of cancellation points"),
 }
 
+CHECKS["C12"] = ("fault_enumeration", "6.C12", "Per generated rule set: store through a simulated disk, load, re-store, re-load with metadata and behavioural (Sim E trace) comparison; every write-call index failed once in sticky and transient mode; truncation at every write boundary plus seeded interior offsets (thorough: every byte); chunking readers; failing read calls; overwrite flag.",
+ "Trusted base: the simulated writer/reader, Sim E as behavioural comparator (3 fact sets per rule set), the catalog write-order hook. Rule sets are sampled; the fault positions are enumerated per rule set.", "deterministic simulation with fault injection: simulated disk, per-scenario enumeration of write failures and truncation offsets")
+
 NOT_YET = {
  "C08": "not yet claimed: history simulation (Sim H) under construction",
  "C09": "not yet claimed: concurrency simulation (Sim K) under construction",
